@@ -644,7 +644,13 @@ public:
         auto m = claim();
         COCLS_VERIF_POINT(prom_claim_post);
         if (m) {
-            m->set(std::forward<Args>(args)...);
+            try {
+                m->set(std::forward<Args>(args)...);
+            } catch (...) {
+                //the value could not be constructed. The promise is already claimed,
+                //nobody else can resolve the future - report the exception through it
+                m->set(std::current_exception());
+            }
             COCLS_VERIF_POINT(fut_set_post);
             return suspend_point<bool>(m->resolve(), true);
         }
